@@ -189,6 +189,10 @@ Definition spec_stdout (c : spec_case) : bytes :=
   let '(o, fs, tab, ytab, bs, out, nums) := c in
   Print.payload (fst (program_spec (mk_oracles tab ytab) (mk_opts o) (map mk_file fs))).
 
+Definition spec_nums (c : spec_case) : list Z :=
+  let '(o, fs, tab, ytab, bs, out, nums) := c in
+  nums_of (snd (program_spec (mk_oracles tab ytab) (mk_opts o) (map mk_file fs))).
+
 Definition spec_bad (cs : list spec_case) : list (N * N) :=
   flat_map (fun ic => let c := spec_code (snd ic) in if c =? 0 then [] else [(fst ic, c)]) (index_from 0 cs).
 
